@@ -173,6 +173,11 @@ class C06(Check):
             ("nest2-negconst", self.gen_negconst),
         ]
         fams.append(("bushy", lambda: (("t", s) for s in self.gen_bushy(tier))))
+        # constants that collide under hash() (-1/-2, 0/2**61-1) or are == with another type, in
+        # sibling subtrees (a memo or table keyed by hash / == would print one for the other)
+        fams.append(("hash-twins", lambda: (("t", s) for s in gen.twin_trees())))
+        fams.append(("typed-twins", lambda: (("t", s) for s in gen.twin_trees(
+            gen.TYPED_TWINS, V("x"), V("y")))))
         if tier == "quick":
             fams.append(("nest3", lambda: (("t", s) for _, s in
                                            gen.nest3(REDUCED14, REDUCED14, REDUCED14))))
